@@ -226,6 +226,12 @@ struct Config
     }
 
     // ---------------------------------------------------------------- construction
+    template <std::size_t... I>
+    static std::vector<std::size_t> fixed_sizes_of(const Vector& v, std::index_sequence<I...>)
+    {
+        return std::vector<std::size_t>{v.template get_fixed_size<I>()...};
+    }
+
     static typename LT::FixedSizes fixed_array(const std::vector<std::size_t>& fixed)
     {
         typename LT::FixedSizes fs{};
@@ -703,6 +709,23 @@ struct Config
             emplace(*vec[k].v, vals, std::make_index_sequence<N>{});
             vec[k].oracle.push_back(vals);
             stable(k, before[k].size, "emplace_back");
+            dump(k);
+        }
+        else if (op == "fillcap")
+        {  // fillcap vK : emplace_back an element of the vector's own fixed sizes (all values 7) until size() == capacity()
+            int k = vidx(t[1]);
+            Vals vals(N);
+            {
+                const auto fs = fixed_sizes_of(*vec[k].v, std::make_index_sequence<LT::CONTIGUOUS_FIXED_SIZE_COUNT>{});
+                std::size_t fi = 0;
+                for (std::size_t p = 0; p < N; ++p)
+                    vals[p].assign(KINDS[p] == Kind::FIXED ? fs[fi++] : 1, 7);
+            }
+            while (vec[k].v->size() < vec[k].v->capacity())
+            {
+                emplace(*vec[k].v, vals, std::make_index_sequence<N>{});
+                vec[k].oracle.push_back(vals);
+            }
             dump(k);
         }
         else if (op == "pop")
